@@ -349,14 +349,29 @@ def gen_e1(tape, tier="quick", *, allow_pull=True, allow_cycles=True, allow_dela
                     break
             cy["need"] = need2
 
+    # usage variants: metadata handed over in connect instead of at initialisation, outputs nobody reads
+    for c in comps:
+        if c["kind"] != "sim":
+            continue
+        for i in c["inputs"]:
+            if not i.get("static") and tape.chance(1, 6):
+                i["info_at_init"] = False
+        for o in c["outputs"]:
+            if tape.chance(1, 6):
+                o["info_at_init"] = False
+        if tape.chance(1, 6):
+            c["outputs"].append({"name": f"o{len(c['outputs'])}", "base": 90000 + len(c["outputs"]), "inc": 1,
+                                 "unlinked": True})
+
     # real library components in place of stubs where the scenario allows it
     if allow_real:
         for ci, c in enumerate(comps):
             if c["kind"] != "sim" or len(c["steps"]) != 1 or c.get("push_first") or c.get("next_none") or \
                     c.get("finish_at") is not None or c.get("cache") is False:
                 continue
-            if any(o.get("nopush") for o in c["outputs"]) or any(i.get("dup") or i.get("skip") or i.get("static")
-                                                                  for i in c["inputs"]):
+            if any(o.get("nopush") or o.get("info_at_init") is False for o in c["outputs"]) or \
+                    any(i.get("dup") or i.get("skip") or i.get("static") or i.get("info_at_init") is False
+                        for i in c["inputs"]):
                 continue
             if not tape.chance(1, 3):
                 continue
@@ -378,7 +393,7 @@ def gen_e1(tape, tier="quick", *, allow_pull=True, allow_cycles=True, allow_dela
     span = tape.choice([3, 7, 12, 20, 24, 36, 48])
     end = t0 + span
     sc = {"engine": "E1", "components": comps, "links": links, "end": end,
-          "start_given": tape.chance(1, 2), "cycles": cycles,
+          "start_given": tape.chance(1, 2), "cycles": cycles, "run_only": tape.chance(1, 2),
           "listing": tape.shuffle(list(range(len(comps)))),
           "link_order": tape.shuffle(list(range(len(links))))}
     return sc
